@@ -32,6 +32,7 @@ type evidence struct {
 	ViolationSamples                     []interface{}
 	Funcs                                map[string]int64
 	Stubs                                map[string]int64
+	funcsBase, stubsBase                 map[string]int64 // totals of the worker pools already closed
 	Problems                             []string
 	WallS                                float64
 	Exit                                 int
@@ -81,10 +82,22 @@ func (e *evidence) addHarness(fn string, params map[string]int, s *explore.Summa
 		}
 	}
 	for f, n := range s.Funcs {
-		e.Funcs[f] = n // cumulative per worker pool: keep the latest totals
+		e.Funcs[f] = e.funcsBase[f] + n // cumulative per worker pool: base + the pool's latest totals
 	}
 	for f, n := range s.Stubs {
-		e.Stubs[f] = n
+		e.Stubs[f] = e.stubsBase[f] + n
+	}
+}
+
+// rebase is called before the worker pool is replaced: what it counted so far becomes
+// the base the next pool's counters are added to.
+func (e *evidence) rebase() {
+	e.funcsBase, e.stubsBase = map[string]int64{}, map[string]int64{}
+	for f, n := range e.Funcs {
+		e.funcsBase[f] = n
+	}
+	for f, n := range e.Stubs {
+		e.stubsBase[f] = n
 	}
 }
 
